@@ -202,6 +202,7 @@ func (c *syntaxLoader) collectNonterms(p ast.ParserSection) []nontermImpl {
 }
 
 func (c *syntaxLoader) collectInputs(p ast.ParserSection, header status.SourceNode) {
+	seenInput := make(map[int]bool)
 	for _, part := range p.GrammarPart() {
 		if input, ok := part.(*ast.DirectiveInput); ok {
 			for _, ref := range input.InputRefs() {
@@ -221,6 +222,12 @@ func (c *syntaxLoader) collectInputs(p ast.ParserSection, header status.SourceNo
 				if c.out.Nonterms[nonterm].Inline {
 					c.Errorf(name, "input nonterminals cannot have an 'inline' property")
 				}
+				if seenInput[nonterm] {
+					// Entry points are named after their nonterminals (ParseFoo), so each one can be listed once.
+					c.Errorf(name, "input nonterminal '%v' is listed more than once", name.Text())
+					continue
+				}
+				seenInput[nonterm] = true
 				_, noeoi := ref.NoEoi()
 				c.out.Inputs = append(c.out.Inputs, syntax.Input{Nonterm: nonterm, NoEoi: noeoi})
 			}
